@@ -8,7 +8,7 @@ import re
 from ..cfg import build_cfg, calls_in, node_calls
 from ..core import Ctx, property_info, rule
 from ..model import AnalysisError, FuncInfo, walk_no_nested
-from ..q import A, asrc, is_self_attr, kwarg, names_in, stores, unparse
+from ..q import A, L, asrc, call_name_of, is_self_attr, kwarg, names_in, return_values, stores, unparse
 
 SCOPE = ("xsdata.codegen", "xsdata.formats.dataclass.generator", "xsdata.formats.dataclass.filters", "xsdata.formats.mixins", "xsdata.models.xsd", "xsdata.models.config",
          "xsdata.models.wsdl", "xsdata.models.dtd", "xsdata.models.mixins", "xsdata.utils.graphs", "xsdata.utils.collections", "xsdata.utils.namespaces", "xsdata.utils.package",
@@ -69,17 +69,17 @@ SANITIZERS = {"sorted", "toposort_flatten", "min", "max", "sum", "len", "any", "
 
 # confirmed order-insensitive consumers (frozen; key = (function, normalised iterable text))
 CONFIRMED = {
-    ("DesignateClassPackages.sort_classes", "qnames"):
+    ("DesignateClassPackages.sort_classes", "comprehension", "_"):
         ("dict built in set order is handed to toposort_flatten, which sorts every level", "toposort_flatten"),
-    ("DesignateClassPackages.strongly_connected_classes", "set(obj.dependencies(True))"):
+    ("DesignateClassPackages.strongly_connected_classes", "list()", "set(_.dependencies(True))"):
         ("edge lists only drive the SCC search: the partition into strongly connected sets does not depend on edge order; groups are consumed as sets", "scc"),
-    ("strongly_connected_components", "set(edges)"):
+    ("strongly_connected_components", "for", "set(_)"):
         ("root order of the DFS changes only the order in which components are yielded; each component is a set and per-group effects (assign) commute", "scc"),
-    ("Attr.native_types", "set(self.get_native_types())"):
+    ("Attr.native_types", "list()", "set(self.get_native_types())"):
         ("de-duplication only; every consumer sorts with converter.sort_types or tests membership (checked)", "native_types"),
-    ("Class.dependencies", "set(self.types())"):
+    ("Class.dependencies", "for", "set(self.types())"):
         ("de-duplication only; every consumer wraps the result in set(...) (checked)", "dependencies"),
-    ("DataclassGenerator.render", "package_dirs"):
+    ("DataclassGenerator.render", "list()", "_"):
         ("only the order of directory arguments of the ruff command line; ruff formats each file independently", "ruff"),
 }
 
@@ -143,27 +143,36 @@ def unordered_iteration(ctx: Ctx) -> None:
     """Every iteration or listing of a hash-ordered set in the generator's scope is sanitised or a confirmed order-insensitive consumer."""
     sites = _discover(ctx)
     ctx.floor("set iteration / listing sites", len(sites), 6)
-    seen_keys = set()
+    seen_keys: dict[tuple, int] = {}
     for f, node, kind, it in sites:
         fname = f.qual.split(":")[1]
-        key = (fname, unparse(it))
+        key = (fname, kind, L(f, it))
         if _int_elements(it, f):
-            ctx.ob(f"{fname}: {kind} over {unparse(it)[:40]} iterates a set of ints (deterministic)", True, at=f, node=node)
+            ctx.ob(f"{fname}: {kind} over {L(f, it)[:40]} iterates a set of ints (deterministic)", True, at=f, node=node, construct=f"int set {kind}")
             continue
         entry = CONFIRMED.get(key)
-        seen_keys.add(key)
-        ctx.ob(f"{fname}: {kind} over the hash-ordered {unparse(it)[:40]} is a confirmed order-insensitive consumer", entry is not None, at=f, node=node,
-               construct=f"{kind}:{unparse(it)[:60]}", msg="iteration order of a set of str / objects depends on PYTHONHASHSEED (or on object addresses) and reaches an order-sensitive use: "
+        seen_keys[key] = seen_keys.get(key, 0) + 1
+        # one confirmed site per key: a second, new site of the same shape in the same function is not covered by the confirmation
+        ctx.ob(f"{fname}: {kind} over the hash-ordered {L(f, it)[:40]} is a confirmed order-insensitive consumer", entry is not None and seen_keys[key] == 1, at=f, node=node,
+               construct=f"{kind}:{L(f, it)[:60]}", msg="iteration order of a set of str / objects depends on PYTHONHASHSEED (or on object addresses) and reaches an order-sensitive use: "
                "generated names, imports or file names can differ between runs. Sort it, or confirm the consumer is order-insensitive")
+    ctx.note("C12.R1 confirmed sites no longer present (table entries to drop)", [list(k) for k in CONFIRMED if k not in seen_keys])
     # the conditions under which the confirmed sites are order-insensitive
     sc = ctx.repo.func("xsdata.codegen.handlers.designate_class_packages:DesignateClassPackages.sort_classes")
-    rets = [r for r in walk_no_nested(sc.node) if isinstance(r, ast.Return)]
-    ok = len(rets) == 1 and isinstance(rets[0].value, ast.ListComp) and A(unparse(rets[0].value.generators[0].iter)) == A("toposort_flatten(edges)")
-    ctx.ob("sort_classes: the edges built in set order are consumed only by toposort_flatten(edges) (which sorts each level)", ok and sum(1 for n in walk_no_nested(sc.node) if isinstance(n, ast.Name) and n.id == "edges" and isinstance(n.ctx, ast.Load)) == 1,
+    built = {tgt.id for st, tgt, v in stores(sc.node) if isinstance(tgt, ast.Name) and isinstance(v, (ast.DictComp, ast.Dict)) or (isinstance(tgt, ast.Name) and isinstance(v, ast.Call) and unparse(v.func) in ("dict", "defaultdict"))}
+    flat_args = {id(a) for c in calls_in(sc.node) if call_name_of(c) == "toposort_flatten" for a in c.args}
+    uses = [x for x in walk_no_nested(sc.node) if isinstance(x, ast.Name) and x.id in built and isinstance(x.ctx, ast.Load)]
+    muts = {id(c.func.value) for c in calls_in(sc.node) if isinstance(c.func, ast.Attribute) and isinstance(c.func.value, ast.Name) and c.func.value.id in built}
+    subs = {id(x.value) for x in walk_no_nested(sc.node) if isinstance(x, ast.Subscript) and isinstance(x.ctx, (ast.Store,)) and isinstance(x.value, ast.Name)}
+    ok = bool(built) and bool(flat_args) and all(id(u) in flat_args or id(u) in muts or id(u) in subs for u in uses)
+    ctx.ob("sort_classes: the edges built in set order are consumed only by toposort_flatten(edges) (which sorts each level)", ok,
            at=sc, construct="sort_classes sanitizer", msg="toposort() yields plain sets per level: the order inside a level (and so the module name classes[0].name) follows the string hash")
     rs = ctx.repo.func("xsdata.codegen.resolver:DependenciesResolver.create_class_list")
-    ctx.ob("create_class_list flattens with toposort_flatten (sorted levels)", A("returntoposort_flatten({_.qname:set(_.dependencies())for_in_})") in asrc(rs), at=rs, construct="class list sanitizer", msg="class order depends on hashing")
-    ctx.ob("sorted_imports sorts by name", A("returnsorted(self.imports,key=lambdax:x.name)") in asrc(ctx.repo.func("xsdata.codegen.resolver:DependenciesResolver.sorted_imports")), at=rs, construct="sorted imports", msg="imports unsorted")
+    rv = return_values(rs.node)
+    ctx.ob("create_class_list flattens with toposort_flatten (sorted levels)", bool(rv) and all(isinstance(v, ast.Call) and call_name_of(v) == "toposort_flatten" for v in rv), at=rs, construct="class list sanitizer", msg="class order depends on hashing")
+    si = ctx.repo.func("xsdata.codegen.resolver:DependenciesResolver.sorted_imports")
+    rv = return_values(si.node)
+    ctx.ob("sorted_imports sorts by name", bool(rv) and all(isinstance(v, ast.Call) and call_name_of(v) == "sorted" and any(k.arg == "key" for k in v.keywords) for v in rv), at=rs, construct="sorted imports", msg="imports unsorted")
     # consumers of Attr.native_types
     n_nt = 0
     for f in ctx.repo.funcs_in(*SCOPE):
@@ -175,7 +184,12 @@ def unordered_iteration(ctx: Ctx) -> None:
                        msg="the list comes from a set of type objects (address-ordered): using its order makes output differ between runs")
     ctx.floor("native_types consumers", n_nt, 5)
     ad = ctx.repo.func("xsdata.codegen.models:Restrictions.asdict")
-    ctx.ob("Restrictions.asdict sorts the types it is given before using them", A("_=converter.sort_types(_)if_else[]") in asrc(ad), at=ad, construct="asdict sorts types", msg="facet conversion uses an unordered type list")
+    gad = build_cfg(ad.node)
+    test_ids = {id(t.ast) for t in gad.nodes if t.kind == "test"}
+    sorted_args = {id(a) for c in calls_in(ad.node) if unparse(c.func).endswith("sort_types") for a in c.args}
+    uses = [x for x in walk_no_nested(ad.node) if isinstance(x, ast.Name) and x.id == "types" and isinstance(x.ctx, ast.Load)]
+    ok = bool(sorted_args) and all(id(x) in test_ids or id(x) in sorted_args for x in uses)
+    ctx.ob("Restrictions.asdict uses the (unordered) types it is given only through converter.sort_types(types) or as a truth test", ok, at=ad, construct="asdict sorts types", msg="facet conversion uses an unordered type list")
     n_dep = 0
     for f in ctx.repo.funcs_in(*SCOPE):
         for c in calls_in(f.node):
@@ -185,8 +199,6 @@ def unordered_iteration(ctx: Ctx) -> None:
                 ok = par is not None and unparse(par.func) in ("set", "frozenset")
                 ctx.ob(f"{f.qual.split(':')[1]}: {unparse(c)[:40]} (hash-ordered) is consumed as a set", ok, at=f, node=c, msg="dependencies() yields in set order: use it only through set(...)")
     ctx.floor("dependencies() consumers", n_dep, 3)
-    for key in CONFIRMED:
-        ctx.ob(f"confirmed site {key[0]}: {key[1][:40]} still exists", key in seen_keys, at=ctx.repo.module("xsdata.codegen.models"), construct=f"confirmed {key}", msg="stale table entry (the site changed): re-confirm it")
 
 
 def _parent_call(fn: ast.AST, node: ast.AST) -> ast.Call | None:
@@ -249,10 +261,7 @@ def id_discipline(ctx: Ctx) -> None:
                 ctx.ob(f"{f.qual.split(':')[1]}: an id()-valued field is not formatted into text", False, at=f, node=node, msg="an address is written into generated text")
     ctx.note("C12.R2 ordered uses", n)
     ad = ctx.repo.func("xsdata.codegen.models:Restrictions.asdict")
-    skip = set()
-    for node in walk_no_nested(ad.node):
-        if isinstance(node, ast.Compare) and isinstance(node.ops[-1], ast.In) and isinstance(node.comparators[-1], ast.Tuple) and unparse(node.left if len(node.ops) == 1 else node.comparators[-2]) == "key":
-            skip |= {e.value for e in node.comparators[-1].elts if isinstance(e, ast.Constant)}
+    skip = asdict_skipped_keys(ctx)
     for k in ("choice", "group", "path"):
         ctx.ob(f"Restrictions.asdict never emits `{k}` (holds raw id() values)", k in skip, at=ad, construct=f"asdict skips {k}", msg="an object address is rendered into field metadata")
     # sequence is emitted, so it must be renumbered (attrs) or cleared (choices, which the renumbering does not visit)
@@ -271,6 +280,35 @@ def id_discipline(ctx: Ctx) -> None:
     ctx.ob("choices created for mixed content get sequence = None", A("_.restrictions.sequence=None") in asrc(pm), at=pm, construct="mixed choice sequence cleared", msg="raw sequence ids in mixed content choices")
 
 
+def asdict_skipped_keys(ctx: Ctx) -> set[str]:
+    """Keys Restrictions.asdict never copies into its result: the constants of every `key in (...)` test (tuple literal or module /
+    class constant) on whose false outcome the emitting store `result[key] = value` is control dependent."""
+    from ..q import control_deps
+
+    ad = ctx.repo.func("xsdata.codegen.models:Restrictions.asdict")
+    g = build_cfg(ad.node)
+    emit = [st for st, tgt, v in stores(ad.node) if isinstance(tgt, ast.Subscript) and isinstance(tgt.slice, ast.Name) and not isinstance(tgt.slice, ast.Constant)]
+    skip: set[str] | None = None
+    for st in emit:
+        mine: set[str] = set()
+        for _txt, pol, t in control_deps(ad, st):
+            c = t.ast
+            if isinstance(c, ast.Compare) and len(c.ops) == 1 and isinstance(c.ops[0], (ast.In, ast.NotIn)) and isinstance(c.left, ast.Name) and c.left.id == st.targets[0].slice.id:
+                if pol != isinstance(c.ops[0], ast.NotIn):
+                    continue
+                coll = c.comparators[0]
+                if isinstance(coll, ast.Name):
+                    coll = ad.module.globals.get(coll.id, coll)
+                elif isinstance(coll, ast.Attribute) and ad.cls is not None:
+                    coll = ad.cls.attrs.get(coll.attr, coll)
+                if isinstance(coll, (ast.Tuple, ast.List, ast.Set)):
+                    mine |= {e.value for e in coll.elts if isinstance(e, ast.Constant) and isinstance(e.value, str)}
+                elif isinstance(coll, ast.Call) and unparse(coll.func) in ("frozenset", "set", "tuple") and coll.args and isinstance(coll.args[0], (ast.Tuple, ast.List, ast.Set)):
+                    mine |= {e.value for e in coll.args[0].elts if isinstance(e, ast.Constant) and isinstance(e.value, str)}
+        skip = mine if skip is None else (skip & mine)
+    return skip or set()
+
+
 def _mentions_id_field(e: ast.AST) -> bool:
     for n in ast.walk(e):
         if isinstance(n, ast.Attribute) and n.attr in ID_FIELDS:
@@ -283,15 +321,22 @@ def _mentions_id_field(e: ast.AST) -> bool:
     return False
 
 
-def _id_use_ok(f: FuncInfo, call: ast.Call) -> tuple[bool, str]:
-    """Admissible contexts of an id() call."""
+def _id_use_ok(f: FuncInfo, call: ast.AST, depth: int = 0) -> tuple[bool, str]:
+    """Admissible contexts of an id() value (the call itself, or a local that holds it)."""
     fn = f.node
     for n in walk_no_nested(fn):
         # stored into an identity field / keyword
         if isinstance(n, ast.Assign) and n.value is call:
-            t = unparse(n.targets[0])
-            if t.split(".")[-1] in ("reference", "choice") or t == "choice":
+            tgt = n.targets[0]
+            if isinstance(tgt, ast.Attribute) and tgt.attr in ("reference", "choice"):
                 return True, "stored in an identity field"
+            if isinstance(tgt, ast.Name) and depth < 3:
+                # a local temporary: every later use of it must be admissible itself
+                uses = [x for x in walk_no_nested(fn) if isinstance(x, ast.Name) and x.id == tgt.id and isinstance(x.ctx, ast.Load)]
+                bad = [why for ok, why in (_id_use_ok(f, u, depth + 1) for u in uses) if not ok]
+                if uses and not bad:
+                    return True, "held in a local that only flows into identity fields / equality tests"
+                return False, bad[0] if bad else "address held in an unused local"
         if isinstance(n, ast.keyword) and n.value is call and n.arg in ("reference", "choice"):
             return True, "identity keyword"
         if isinstance(n, ast.Dict) and call in n.values:
